@@ -6,3 +6,4 @@ pub mod fam;
 pub mod exec;
 pub mod doc;
 pub mod dynfam;
+pub mod mirror;
